@@ -239,7 +239,7 @@ theorem step_fit_refines (K : Kernel X Wt α μ) (cfg : SearchCfg μ θ) (E : Ex
     (veto : Nat → Bool) (mt : MT) (eps : α)
     (hC : Contract K cfg E th self.W x self.params is_none reset veto mt eps) :
     Art.Gen.BaseART.step_fit E self.W.length self x is_none reset mt eps =
-      (let r := stepFit K cfg (th self.params) veto ⟨self.W, self.cnt, self.n, []⟩ x
+      (let r := stepFit K cfg (th self.params) veto ⟨self.W, self.cnt, self.n, self.labels⟩ x
        (⟨r.1.W, r.1.cnt, r.1.n, self.params, self.labels, self.hasW⟩, r.2)) := by
   unfold Art.Gen.BaseART.step_fit stepFit
   by_cases hW : self.W = []
@@ -358,7 +358,7 @@ theorem scalar_step_fit [Inhabited Wt] (K : Kernel X Wt β β) (inf eps : β) (s
     (is_none : Bool) (veto : Nat → Bool) (hv : is_none = true → ∀ c, veto c = false) :
     letI : Inhabited β := ⟨0⟩
     Art.Gen.BaseART.step_fit (scalarExt K inf) self.W.length self x is_none (fun _ _ c _ _ => !veto c) mt eps =
-      (let r := stepFit K (scalarCfg mt false (· + eps) (· - eps) inf) self.params veto ⟨self.W, self.cnt, self.n, []⟩ x
+      (let r := stepFit K (scalarCfg mt false (· + eps) (· - eps) inf) self.params veto ⟨self.W, self.cnt, self.n, self.labels⟩ x
        (⟨r.1.W, r.1.cnt, r.1.n, self.params, self.labels, self.hasW⟩, r.2)) := by
   letI : Inhabited β := ⟨0⟩
   exact step_fit_refines K _ (scalarExt K inf) id self x is_none _ veto mt eps
